@@ -31,7 +31,7 @@ ALL_MUTS = ["unkTemplate", "unkArg", "unkParRef", "unkParTmpl", "unkStep", "self
             "dupExec", "noExec", "execNoStep", "digitName", "unkEntry", "entryUnkArg", "varShadowsParam"]
 
 INVARIANTS = ["TypeOK", "PathsUnique", "OnePerStep", "NoParamLeft", "BindingsAsDeclared", "VariablesArePrivate", "FilesAsWritten", "RefsResolve", "Acyclic",
-              "RelationInduced", "ValidPartCompiles", "MutationsReject", "RejectedHasLocation"]
+              "RelationInduced", "ValidPartCompiles", "EntrySourcesReject", "MutationsReject", "RejectedHasLocation"]
 
 HANG_CPU_SECONDS = 3.0      # a compilation takes ~5 ms; the timer counts CPU time of this process (ITIMER_VIRTUAL)
 HANG_BUDGET = 3             # after that many hangs with one key the remaining cases of the key are not executed
@@ -46,13 +46,13 @@ def constants(tier):
         c = dict(Depths=[1, 2, 3], Reuses=[0, 1, 2], Orders=["fwd", "rev"],
                  Namings=["homo", "dist", "prefix", "sufclash", "st0clash", "stage1"],
                  Spellings=["bareT", "meth", "in", "out", "q", "qcut", "dup", "two"], PassDowns=["bare", "sfx", "meth", "file"],
-                 Bindings=["dflt", "lit", "fwd", "dfwd", "ovr", "emb"], VarModes=["none", "priv", "shadow"], Muts=ALL_MUTS, MutNamings=["dist", "homo", "prefix"],
+                 Bindings=["dflt", "lit", "fwd", "dfwd", "ovr", "emb"], VarModes=["none", "priv", "shadow"], EntryModes=["off", "on"], Muts=ALL_MUTS, MutNamings=["dist", "homo", "prefix"],
                  Full="TRUE")
     else:
         c = dict(Depths=[1, 2, 3], Reuses=[0, 1, 2], Orders=["fwd", "rev"],
                  Namings=["homo", "dist", "prefix", "sufclash", "st0clash", "stage1"],
                  Spellings=["bareT", "meth", "in", "out", "q", "qcut", "dup", "two"], PassDowns=["bare", "sfx", "meth", "file"],
-                 Bindings=["dflt", "lit", "fwd", "dfwd", "ovr", "emb"], VarModes=["none", "priv", "shadow"], Muts=ALL_MUTS, MutNamings=["dist", "homo"],
+                 Bindings=["dflt", "lit", "fwd", "dfwd", "ovr", "emb"], VarModes=["none", "priv", "shadow"], EntryModes=["off", "on"], Muts=ALL_MUTS, MutNamings=["dist", "homo"],
                  Full="FALSE")
     return c
 
@@ -144,7 +144,36 @@ def _on_timer(signum, frame):
     raise Hang()
 
 
-def compile_real(doc):
+def render_override(ns):
+    """the arguments laid over entrypoint.execute[0].args, None when the caller gives none"""
+    if not ns["ovr"]["given"]:
+        return None
+    return {a["n"]: render_value(a["v"]) for a in ns["ovr"]["args"]}
+
+
+def load_package(doc, override, scratch):
+    """second entry path: a package directory with conf/dsl.yaml loaded by DSLExperimentConfiguration, the override
+    being the `global` section of a user variables file (as elaunch.py --variables does)"""
+    import yaml
+    import shutil
+    import experiment.model.conf as C
+    pkg = os.path.join(scratch, "entry.package")
+    shutil.rmtree(pkg, ignore_errors=True)
+    os.makedirs(os.path.join(pkg, "conf"))
+    with open(os.path.join(pkg, "conf", "dsl.yaml"), "w") as f:
+        yaml.safe_dump(doc, f, sort_keys=False)
+    vfiles = []
+    if override is not None:
+        vf = os.path.join(scratch, "user_variables.yaml")
+        with open(vf, "w") as f:
+            yaml.safe_dump({"global": override}, f)
+        vfiles = [vf]
+    conf = C.DSLExperimentConfiguration(path=pkg, variable_files=vfiles, is_instance=False, createInstanceFiles=False,
+                                        primitive=True, updateInstanceFiles=False, platform=None, system_vars={})
+    return conf.get_flowir_concrete()
+
+
+def compile_real(doc, override=None, package_scratch=None):
     """-> (kind, payload): ok FlowIRConcrete | invalid [locations], [messages] | exception exc | hang None"""
     import experiment.model.frontends.dsl as D
     import experiment.model.errors as E
@@ -153,7 +182,15 @@ def compile_real(doc):
     signal.setitimer(signal.ITIMER_VIRTUAL, HANG_CPU_SECONDS)
     try:
         try:
-            flowir = D.namespace_to_flowir(namespace)
+            if package_scratch is None:
+                flowir = D.namespace_to_flowir(namespace, override_entrypoint_args=override)
+            else:
+                try:
+                    flowir = load_package(doc, override, package_scratch)
+                except E.ExperimentInvalidConfigurationError as e:
+                    if isinstance(e.underlyingError, E.DSLInvalidError):
+                        raise e.underlyingError
+                    raise
         finally:
             signal.setitimer(signal.ITIMER_VIRTUAL, 0)
         return "ok", flowir
@@ -360,6 +397,19 @@ def naming_key(case):
     return "naming:component-ids-collide"
 
 
+class _Prefixed:
+    """the Check with every violation key prefixed by the entry path it was observed on"""
+
+    def __init__(self, chk, prefix):
+        self._chk, self._prefix = chk, prefix
+
+    def violation(self, key, what, replay=None):
+        return self._chk.violation(self._prefix + key, (self._prefix + " " if self._prefix else "") + what, replay)
+
+    def __getattr__(self, name):
+        return getattr(self._chk, name)
+
+
 class Runner:
     def __init__(self, chk, graph_every=0):
         self.chk = chk
@@ -373,9 +423,17 @@ class Runner:
         return {"ch": case["ch"], "dsl": doc, "case": case}
 
     def run_case(self, case):
-        chk = self.chk
+        self.run_path(case, "")
+        if case["ch"]["es"]["on"]:
+            # the sources of the entry arguments are also exercised through the package loader
+            self.stats["package-path"] = self.stats.get("package-path", 0) + 1
+            self.run_path(case, "package:")
+
+    def run_path(self, case, via):
+        chk = _Prefixed(self.chk, via)
         ns = case["ns"]
         doc = render_namespace(ns)
+        override = render_override(ns)
         hard = [e for e in case["errs"] if not e["soft"]]
         soft = [e for e in case["errs"] if e["soft"]]
         whats = sorted(set(e["what"] for e in hard))
@@ -384,9 +442,9 @@ class Runner:
         if self.hangs.get(hang_key, 0) >= HANG_BUDGET:
             self.skipped_after_hang += 1
             return
-        kind, payload = compile_real(doc)
-        chk.evaluated(("case", json.dumps(case["ch"], sort_keys=True)))
-        rp = self.replay_obj(case, doc)
+        kind, payload = compile_real(doc, override, self.chk.scratch if via else None)
+        chk.evaluated(("case", via, json.dumps(case["ch"], sort_keys=True)))
+        rp = dict(self.replay_obj(case, doc), override=override, via=via or "namespace_to_flowir")
         if kind == "hang":
             self.hangs[hang_key] = self.hangs.get(hang_key, 0) + 1
             chk.violation(hang_key, "namespace_to_flowir did not return within %.0f s of CPU time (expected: %s) for choice %s" % (
@@ -430,10 +488,9 @@ class Runner:
             chk.violation(key, "namespace_to_flowir raised %s: %s (neither a FlowIR nor a DSLInvalidError); steps %s; choice %s" % (
                 name, str(payload)[:200], ["/".join(i["path"]) for i in case["flat"]], case["ch"]), rp)
             return
-        self.compare(case, payload, rp)
+        self.compare(case, payload, rp, chk)
 
-    def compare(self, case, flowir, rp):
-        chk = self.chk
+    def compare(self, case, flowir, rp, chk):
         flat, edges = case["flat"], case["edges"]
         real = flowir.get_components()
         ids = [(c.get("stage", 0), c["name"]) for c in real]
@@ -489,7 +546,7 @@ def run(tier):
     chk.add_tlc(r)
     # 1b. witness: the implementation's naming scheme, as modelled, is not injective on the family (expected to fail)
     small = dict(consts, Depths=[2], Reuses=[0], Orders=["fwd"], Namings=["sufclash", "st0clash"], Spellings=["bareT"],
-                 PassDowns=["bare"], Bindings=["dflt"], VarModes=["none"], Muts=["unkStep"], MutNamings=["dist"], Full="FALSE")
+                 PassDowns=["bare"], Bindings=["dflt"], VarModes=["none"], EntryModes=["off"], Muts=["unkStep"], MutNamings=["dist"], Full="FALSE")
     c1b = write_cfg(os.path.join(gen, "Dsl_witness_%s.cfg" % tier), small, False, ["CodeNamingInjective"])
     rw = tlc.run_tlc("Dsl", c1b, timeout=300, expect_violation=True)
     if rw["violated"] != "CodeNamingInjective":
